@@ -333,7 +333,10 @@ def cbmc(gb, cwd, oid, function, route_note='', checks=CBMC_CHECKS, solver=None,
         elif st == 'FAILURE':
             w = trace_inputs(p.get('trace'))
             loc = p.get('sourceLocation', {})
-            obs.append(Ob('%s/%s' % (oid, name), function, '%s [%s:%s]' % (desc, os.path.basename(loc.get('file', '?')), loc.get('line', '?')), 'CCV', backend, REFUTED, wall,
+            pid = name
+            if cls == 'assertion':      # stable id for user assertions: their text, not cbmc's running number
+                pid = re.sub(r'[^A-Za-z0-9]+', '-', desc).strip('-')[:70]
+            obs.append(Ob('%s/%s' % (oid, pid), function, '%s [%s:%s]' % (desc, os.path.basename(loc.get('file', '?')), loc.get('line', '?')), 'CCV', backend, REFUTED, wall,
                           'cbmc FAILURE with trace; %s' % route_note, witness=w, bound=bound, log=log))
         else:
             unknown.append((name, desc, st))
